@@ -130,6 +130,8 @@ class IPv6FlowSpec(NLRI):
         ip_hex = netaddr.IPAddress(ip).packed
         offset = prefix.get('offset')
         masklen = int(masklen)
+        if not 0 <= masklen <= 128:
+            raise ValueError('flowspec prefix length %s is not in 0..128' % masklen)
 
         # RFC 8956 3.1: the pattern holds the address bits from <offset> up to
         # <length>, left-aligned and padded to an octet boundary
